@@ -130,7 +130,23 @@ func (sp *Spec[I]) showHist(h []int, extra ...int) []string {
 
 func (sp *Spec[I]) past() bool { return !sp.Deadline.IsZero() && time.Now().After(sp.Deadline) }
 
-// xdir returns the exchange directory shared by the shards of one check.py run (they have the same parent).
+// runID identifies one check.py run: the shards are its children, so they share the parent's pid and - against
+// pid reuse - the parent's start time (field 22 of /proc/<pid>/stat; empty where /proc is not available).
+func runID() string {
+	pp := os.Getppid()
+	id := fmt.Sprint(pp)
+	if b, err := os.ReadFile(fmt.Sprintf("/proc/%d/stat", pp)); err == nil {
+		s := string(b)
+		if i := strings.LastIndexByte(s, ')'); i >= 0 { // the command name may contain spaces
+			if f := strings.Fields(s[i+1:]); len(f) > 19 {
+				id += "." + f[19]
+			}
+		}
+	}
+	return id
+}
+
+// xdir returns the exchange directory shared by the shards of one check.py run.
 func xdir(name string) string {
 	out := os.Getenv("VERIF_OUT")
 	if out == "" {
@@ -142,7 +158,7 @@ func xdir(name string) string {
 		}
 		return '_'
 	}, name)
-	return filepath.Join(filepath.Dir(out), fmt.Sprintf("xchg-%d-%s", os.Getppid(), clean))
+	return filepath.Join(filepath.Dir(out), fmt.Sprintf("xchg-%s-%s", runID(), clean))
 }
 
 // Run explores to closure or to Depth.
@@ -163,7 +179,7 @@ func Run[I any](sp *Spec[I]) *Stats {
 				// leftovers of earlier runs (other parent process) only waste disk
 				old, _ := filepath.Glob(filepath.Join(filepath.Dir(dir), "xchg-*"))
 				for _, o := range old {
-					if !strings.HasPrefix(filepath.Base(o), fmt.Sprintf("xchg-%d-", os.Getppid())) {
+					if !strings.HasPrefix(filepath.Base(o), "xchg-"+runID()+"-") {
 						os.RemoveAll(o)
 					}
 				}
@@ -338,12 +354,8 @@ func Run[I any](sp *Spec[I]) *Stats {
 			for _, s := range all[j] {
 				st.Transitions++
 				if s.VKey != "" {
-					if j%shards == shard {
-						if s.VKey == "replay-divergence" {
-							addVio(sp.showHist(frontier[j].hist, s.Op), s.VKey, s.VDesc)
-						} else {
-							addVio(sp.showHist(frontier[j].hist, s.Op), s.VKey, s.VDesc)
-						}
+					if j%shards == shard { // reported by the shard that executed it
+						addVio(sp.showHist(frontier[j].hist, s.Op), s.VKey, s.VDesc)
 					}
 					continue
 				}
